@@ -3,6 +3,7 @@ package main
 import (
 	"bytes"
 	"fmt"
+	"github.com/crate-crypto/go-ipa/bandersnatch/fp"
 	"math/big"
 
 	"github.com/crate-crypto/go-ipa/banderwagon"
@@ -207,6 +208,44 @@ func (d *driver) decodeInput(c *decCase, i int) []byte {
 			x = subm(big.NewInt(0), x)
 		}
 		return mk(x, y)
+	case "ydyad":
+		// a valid point whose y has a chosen 2-power component: y = g^(2^(i mod 32)) * s^(2^32) with g a primitive 2^32-th root of unity and
+		// s random (decompression takes the square root of y^2: every position of its dyadic discrete log gets exercised)
+		g0 := fp.VerifSqrtDyadicRoot(0)
+		g := fpRegBig(&g0)
+		e := new(big.Int).Lsh(one, uint(i%32))
+		if i >= 32 {
+			e.Add(e, new(big.Int).Lsh(one, uint((i*7)%32))) // two bits set
+		}
+		ge := new(big.Int).Exp(g, e, modP)
+		half := new(big.Int).Rsh(new(big.Int).Sub(modP, one), 1)
+		for {
+			sv := p.big(300)
+			sv.Mod(sv, modP)
+			if sv.Sign() == 0 {
+				continue
+			}
+			y := mulm(ge, new(big.Int).Exp(sv, new(big.Int).Lsh(one, 32), modP))
+			// the point with this y, if there is a valid one
+			y2 := mulm(y, y)
+			den := subm(curveA, mulm(curveD, y2))
+			if den.Sign() == 0 {
+				continue
+			}
+			x2 := mulm(subm(one, y2), new(big.Int).ModInverse(den, modP))
+			if x2.Sign() != 0 && !isQR(x2) {
+				continue
+			}
+			x := new(big.Int).ModSqrt(x2, modP)
+			if !isQR(subm(one, mulm(curveA, x2))) {
+				continue
+			}
+			if y.Cmp(half) <= 0 { // the canonical representative has the larger y
+				y.Sub(modP, y)
+				x = subm(big.NewInt(0), x)
+			}
+			return mk(x, y)
+		}
 	case "crossfmt": // a VALID encoding in the other format: 64 bytes x || y for the compressed decoders, 32 bytes x for the uncompressed one
 		x := findX(p, "valid")
 		if unc {
